@@ -30,7 +30,7 @@ EXTENDS Integers, Sequences, FiniteSets, TLC
 
 TOP == 1000000000
 
-Min(a, b) == IF a < b THEN a ELSE b
+Lesser(a, b) == IF a < b THEN a ELSE b
 SatAdd(x, y) == IF x + y > TOP THEN TOP ELSE x + y        \* u64::saturating_add
 IsTop(a) == a > TOP \div 2                                 \* a "near u64::MAX" amount
 
@@ -50,7 +50,7 @@ Velocity(b) == SumSatFrom(b, 1)                            \* fn velocity(): sat
 Rotate(c, p, t) ==
   LET n  == (t - c.start) \div p.B                         \* (current_sec - start_sec) / interval
       k  == Len(c.b)
-      sh == Min(k, n)                                      \* min(len, nshift)
+      sh == Lesser(k, n)                                      \* min(len, nshift)
   IN [start |-> t - (t % p.B),
       b     |-> [i \in 1..k |-> IF i <= sh THEN 0 ELSE c.b[i - sh]]]
 
